@@ -24,7 +24,8 @@ import traceback
 
 from . import bootstrap
 
-MAX_CANDIDATES_KEPT = 40     # per shard, per (kf or 'violation') bucket
+MAX_CANDIDATES_KEPT = 400    # per shard
+MAX_PER_GROUP = 4            # per shard, per (bucket, group of similar witnesses)
 MAX_SAMPLES = 8
 
 
@@ -70,6 +71,7 @@ class Ctx:
         self.candidates = []       # kept witnesses
         self.cand_counts = {}      # bucket -> count
         self.kf_seen = {}          # kf id -> count
+        self._group_counts = {}
         self.notes = []
         self.blocks = {}           # exhaustive blocks: name -> size
         self.inconclusive = []
@@ -99,7 +101,7 @@ class Ctx:
         if len(self.notes) < 50 and text not in self.notes:
             self.notes.append(text)
 
-    def fail(self, what, witness, kf=None, monitor=None):
+    def fail(self, what, witness, kf=None, monitor=None, group=None):
         """A monitor fired.  kf = id of the known-finding MECHANISM the check's
         own classifier attributes this to (feature present AND signature
         reproduced), or None.  Whether that id is actually listed is decided by
@@ -108,10 +110,13 @@ class Ctx:
         self.cand_counts[bucket] = self.cand_counts.get(bucket, 0) + 1
         if kf:
             self.kf_seen[kf] = self.kf_seen.get(kf, 0) + 1
-        kept = sum(1 for c in self.candidates if c['bucket'] == bucket)
-        if kept < MAX_CANDIDATES_KEPT:
+        group = group or what[:28]
+        gk = (bucket, group)
+        self._group_counts[gk] = self._group_counts.get(gk, 0) + 1
+        if (self._group_counts[gk] <= MAX_PER_GROUP
+                and len(self.candidates) < MAX_CANDIDATES_KEPT):
             self.candidates.append({
-                'bucket': bucket, 'kf': kf, 'what': what,
+                'bucket': bucket, 'kf': kf, 'what': what, 'group': group,
                 'monitor': monitor, 'witness': jsonable(witness),
                 'shard': self.shard, 'seed': self.seed,
             })
